@@ -88,8 +88,19 @@ pub fn gen_trace_i(prop: &str, rs: u64, i: u64) -> Trace {
     }
 }
 
+/// Is this the release-like build of the simulator (profile `simrel`: no debug assertions, hence
+/// pocket-db's 4 MiB growth chunk, and wrapping arithmetic)? It runs the second, smaller leg of every
+/// check: its own seeds, its own evidence file, replay files marked `rel-`.
+pub fn release_build() -> bool {
+    !cfg!(debug_assertions)
+}
+
 fn label(prop: &str) -> String {
-    format!("pocket-sim/{prop}")
+    if release_build() {
+        format!("pocket-sim/{prop}/release-build")
+    } else {
+        format!("pocket-sim/{prop}")
+    }
 }
 
 // ------------------------------------------------------------------ worker
@@ -365,13 +376,22 @@ pub fn cmd_check(opts: &BTreeMap<String, String>) -> i32 {
         .get("runs")
         .and_then(|s| s.parse().ok())
         .or_else(|| std::env::var("VERIF_RUNS").ok().and_then(|s| s.parse().ok()))
-        .unwrap_or(if tier == "quick" { info.quick_runs } else { info.thorough_runs });
+        .unwrap_or({
+            let r = if tier == "quick" { info.quick_runs } else { info.thorough_runs };
+            // the release-build leg: a sixth of the runs
+            if release_build() {
+                (r / 6).max(200)
+            } else {
+                r
+            }
+        });
     let deadline: u64 = opts.get("deadline").and_then(|s| s.parse().ok()).unwrap_or(if tier == "quick" { 300 } else { 3000 });
     let exe = std::env::current_exe().expect("current_exe");
     let root = verif_root();
     crate::runner::sweep_stale_scratch();
     let (_known_open, known_entries) = load_known(&format!("{root}/KNOWN_FINDINGS.txt"));
-    println!("pocket-sim check property={prop} tier={tier} VERIF_SEED={seed} runs={runs} workers={jobs}");
+    println!("pocket-sim check property={prop} tier={tier} VERIF_SEED={seed} runs={runs} workers={jobs}{}", if release_build() { " build=release-like (4 MiB chunk, wrapping arithmetic, no debug assertions)" } else { "" });
+    let relp = if release_build() { "rel-" } else { "" };
     // the concurrent mode models std's RwLock inside mmap-append (a new reader waits while a
     // writer is queued); confirm with real threads that this is how the lock behaves here
     let mut lock_probe = "not run (no concurrent leg)".to_string();
@@ -414,11 +434,11 @@ pub fn cmd_check(opts: &BTreeMap<String, String>) -> i32 {
         for (clause, f) in by_clause.iter().take(3) {
             violations += 1;
             let trace = gen_trace_i(&prop, f.run_seed, f.i);
-            let full = format!("{root}/replays/{prop}-{}-{}.full.trace", f.run_seed, clause);
+            let full = format!("{root}/replays/{relp}{prop}-{}-{}.full.trace", f.run_seed, clause);
             let mut t = trace.clone();
             t.expect = Some(format!("{} {}", clause, f.props.join(",")));
             let _ = std::fs::write(&full, t.to_text());
-            let min = format!("{root}/replays/{prop}-{}-{}.trace", f.run_seed, clause);
+            let min = format!("{root}/replays/{relp}{prop}-{}-{}.trace", f.run_seed, clause);
             let mut path = full.clone();
             let r = run_with_timeout(
                 Command::new(&exe).arg("minimize").arg(&full).arg(&min).args(["--clause", clause]).args(["--props", &f.props.join(",")]),
@@ -452,7 +472,7 @@ pub fn cmd_check(opts: &BTreeMap<String, String>) -> i32 {
             continue;
         }
         let trace = gen_trace_i(&prop, *rs, *i);
-        let path = format!("{root}/replays/{prop}-{rs}-process-died.trace");
+        let path = format!("{root}/replays/{relp}{prop}-{rs}-process-died.trace");
         let mut t = trace.clone();
         t.expect = Some(format!("process-died {prop}"));
         let _ = std::fs::write(&path, t.to_text());
@@ -500,7 +520,7 @@ pub fn cmd_check(opts: &BTreeMap<String, String>) -> i32 {
 
     // ---------------- C13: cross-check of the snapshot stub against a real fork + SIGKILL
     let mut fidelity_json = J::Null;
-    if prop == "C13" {
+    if prop == "C13" && !release_build() {
         let n = if tier == "quick" { 150 } else { 3000 };
         match run_with_timeout(Command::new(&exe).arg("fidelity").args(["--runs", &n.to_string()]).args(["--seed", &seed.to_string()]), 600) {
             Some((code, out)) => {
@@ -648,7 +668,7 @@ pub fn cmd_check(opts: &BTreeMap<String, String>) -> i32 {
         ("violations", J::Int(violations)),
     ]);
     let _ = std::fs::create_dir_all(format!("{root}/evidence"));
-    let evpath = format!("{root}/evidence/{prop}.json");
+    let evpath = if release_build() { format!("{root}/evidence/{prop}.release-leg.json") } else { format!("{root}/evidence/{prop}.json") };
     if let Err(e) = std::fs::write(&evpath, ev.to_string_pretty()) {
         println!("HARNESS-ERROR: cannot write {evpath}: {e}");
         if exit == 0 {
